@@ -39,14 +39,15 @@ func (c *verifC32Conn) SetWriteDeadline(t time.Time) error { return nil }
 
 // verifC32Next is the handler after the authenticator; it records hand-over.
 type verifC32Next struct {
-	got   *Peer
-	gotID module.PeerID
-	count int
+	got    *Peer
+	gotID  module.PeerID
+	count  int
+	closes int
 }
 
 func (n *verifC32Next) onPeer(p *Peer)                { n.got = p; n.gotID = p.ID(); n.count++ }
 func (n *verifC32Next) onPacket(pkt *Packet, p *Peer) {}
-func (n *verifC32Next) onClose(p *Peer)               {}
+func (n *verifC32Next) onClose(p *Peer)               { n.closes++ }
 func (n *verifC32Next) setNext(ph PeerHandler)        {}
 
 const VerifC32Channel = "verif"
@@ -147,6 +148,9 @@ func (s *VerifC32Session) State() (closed, handed bool, handedID, id []byte, wai
 }
 
 func (s *VerifC32Session) HandOverCount() int { return s.next.count }
+
+// NextCloseCount: how often the handler after the authenticator saw onClose.
+func (s *VerifC32Session) NextCloseCount() int { return s.next.closes }
 
 // LocalExtra is p.secureKey.extra (nil before the secure stage).
 func (s *VerifC32Session) LocalExtra() []byte {
